@@ -72,9 +72,9 @@ Proof.
     + rewrite IH. reflexivity.
 Qed.
 
-Lemma select_is_precedence lk white ps sni protos :
-  select lk white ps sni protos =
-  precedence (fun p => code_name_match lk white p sni) (fun p => code_alpn_match lk white p protos) ps.
+Lemma select_is_precedence lk mixed white ps sni protos :
+  select lk mixed white ps sni protos =
+  precedence (fun p => code_name_match lk mixed white p sni) (fun p => code_alpn_match lk mixed white p protos) ps.
 Proof. unfold select. rewrite select_go_precedence. reflexivity. Qed.
 
 Lemma precedence_ext nm am nm' am' ps :
@@ -167,7 +167,7 @@ Qed.
 
 Lemma no_clash_name white p sni protos :
   no_clash_p white sni protos p = true ->
-  code_name_match true white p sni = spec_name_match true p sni.
+  code_name_match true true white p sni = spec_name_match true p sni.
 Proof.
   intros H. unfold no_clash_p in H. apply andb_true_iff in H as [H _].
   unfold code_name_match, spec_name_match, matched_server_name.
@@ -178,7 +178,7 @@ Qed.
 
 Lemma no_clash_alpn white p sni protos :
   no_clash_p white sni protos p = true ->
-  code_alpn_match true white p protos = spec_alpn_match white p protos.
+  code_alpn_match true true white p protos = spec_alpn_match white p protos.
 Proof.
   intros H. unfold no_clash_p in H. apply andb_true_iff in H as [_ H].
   unfold code_alpn_match, spec_alpn_match, matched_alpn.
@@ -190,12 +190,17 @@ Qed.
 (* MAIN: under the side condition the code computes the documented precedence *)
 Theorem select_spec white ps sni protos :
   no_clash white ps sni protos = true ->
-  select true white ps sni protos = spec_select true white ps sni protos.
+  select true true white ps sni protos = spec_select true white ps sni protos.
 Proof.
   intros H. rewrite select_is_precedence. unfold spec_select. apply precedence_ext.
   intros p Hp Hr. unfold no_clash in H. rewrite forallb_forall in H. specialize (H p Hp).
   rewrite Hr in H. cbn in H. split; [eapply no_clash_name|eapply no_clash_alpn]; exact H.
 Qed.
+
+(* with two separate sets (the repaired shape) no side condition is needed *)
+Theorem select_spec_separate white ps sni protos :
+  select true false white ps sni protos = spec_select true white ps sni protos.
+Proof. rewrite select_is_precedence. reflexivity. Qed.
 
 (* ------------------------------------------------------------------ non-empty SNI: both readings of an unset server_name agree *)
 Lemma append_nonempty a b : a <> "" -> (a ++ b) <> "".
